@@ -236,6 +236,15 @@ func (p *processor) process(in ion.Reader) error {
 			}
 		}
 
+		if in.IsNull() && in.Type() != ion.NullType {
+			// A typed null (null.bool, null.int, null.struct, ...): the value accessors
+			// return nil for it, so copy it as what it is.
+			if err = p.out.WriteNullType(in.Type()); err != nil {
+				return p.error(write, err)
+			}
+			continue
+		}
+
 		switch in.Type() {
 		case ion.NullType:
 			err = p.out.WriteNull()
